@@ -316,18 +316,120 @@ type c48Signing struct {
 	// look-alike of the issuing CA (mode "forged-embedded"): which fields it
 	// copies and who signed it (self / unrelated / twin / issuer(control))
 	forgedCopy, forgedBy string
+	embCls               string // what template.Certificate is
+	respCls              string // what the responderCert argument is (sub-property A)
 }
 
 // desc renders the signing mode for messages.
 func (s c48Signing) desc() string {
+	d := s.mode
 	if s.forgedCopy != "" || s.forgedBy != "" {
-		return fmt.Sprintf("%s[look-alike copies %s, signed by %s]", s.mode, s.forgedCopy, s.forgedBy)
+		d = fmt.Sprintf("%s[look-alike copies %s, signed by %s]", s.mode, s.forgedCopy, s.forgedBy)
 	}
-	return s.mode
+	if s.embCls != "" {
+		d += " " + s.embCls
+	}
+	if s.respCls != "" {
+		d += " " + s.respCls
+	}
+	return d
 }
 
-// c48DrawSigning picks who signs and what is embedded, relative to issuing CA ca.
+// c48FindResponder returns the pool responder one of whose certificates is c.
+func c48FindResponder(p *ref.OCSPPool, c *x509.Certificate) *ref.OCSPResponder {
+	for _, r := range p.Responders {
+		if c != nil && (r.Cert == c || r.Renewed == c) {
+			return r
+		}
+	}
+	return nil
+}
+
+// c48DrawSigning picks who signs and what is embedded, relative to issuing CA
+// ca, and labels what template.Certificate is.  A third of the delegation
+// certificates are replaced by their renewed sibling (same key and subject,
+// other serial and validity).
 func c48DrawSigning(rt *rapid.T, p *ref.OCSPPool, ca *ref.OCSPCA) c48Signing {
+	s := c48DrawSigning0(rt, p, ca)
+	switch s.mode {
+	case "direct", "delegated-not-embedded":
+		s.embCls = "emb=none"
+	case "delegated", "delegated-noeku":
+		s.embCls = "emb=delegation"
+	case "delegated-foreign":
+		s.embCls = "emb=other-ca's-delegation"
+	case "embedded-keymismatch":
+		s.embCls = "emb=delegation(not-the-signer's)"
+	case "direct+embedded-ca":
+		s.embCls = "emb=issuer-itself"
+	default:
+		s.embCls = "emb=lookalike"
+	}
+	if r := c48FindResponder(p, s.embedded); r != nil && r.Renewed != nil && rapid.IntRange(0, 2).Draw(rt, "renewedEmbedded") == 0 {
+		if s.respCert == s.embedded {
+			s.respCert = r.Renewed
+		}
+		s.embedded = r.Renewed
+		s.embCls += "(renewed)"
+	}
+	return s
+}
+
+// c48DrawResponderCert draws the positional responderCert argument of
+// CreateResponse independently of template.Certificate: the documentation
+// takes the responder id from the former and the embedded certificate from
+// the latter.
+func c48DrawResponderCert(rt *rapid.T, p *ref.OCSPPool, ca *ref.OCSPCA, s c48Signing) (*x509.Certificate, string) {
+	other := func(label string) *ref.OCSPCA {
+		return p.CAs[(ca.ID+rapid.IntRange(1, len(p.CAs)-1).Draw(rt, label))%len(p.CAs)]
+	}
+	switch rapid.IntRange(0, 11).Draw(rt, "responderCert") {
+	case 0, 1, 2, 3:
+		// the usual call: the same certificate that is embedded (or the signer's)
+		if s.respCert == ca.Cert {
+			return s.respCert, "resp=issuer"
+		}
+		return s.respCert, "resp=same-as-embedded-or-signer"
+	case 4, 5:
+		return ca.Cert, "resp=issuer"
+	case 6, 7, 8:
+		// the other certificate of the same delegation (old vs renewed)
+		r := c48FindResponder(p, s.embedded)
+		if r == nil {
+			r = c48FindResponder(p, s.respCert)
+		}
+		if r != nil && r.Renewed != nil {
+			if s.embedded == r.Renewed || (s.embedded == nil && s.respCert == r.Renewed) {
+				return r.Cert, "resp=sibling-of-embedded(older)"
+			}
+			return r.Renewed, "resp=sibling-of-embedded(renewed)"
+		}
+		fallthrough
+	case 9:
+		rs := p.RespondersOf(ca.ID, true)
+		r := rs[rapid.IntRange(0, len(rs)-1).Draw(rt, "otherResp")]
+		if r.Cert == s.embedded || r.Renewed == s.embedded {
+			r = rs[(rapid.IntRange(1, len(rs)-1).Draw(rt, "otherResp2")+c48IndexOfResp(rs, r))%len(rs)]
+		}
+		return r.Cert, "resp=another-delegation-of-issuer"
+	case 10:
+		rs := p.RespondersOf(other("otherRespCA").ID, true)
+		return rs[rapid.IntRange(0, len(rs)-1).Draw(rt, "otherResp")].Cert, "resp=delegation-of-another-ca"
+	default:
+		return other("otherCA").Cert, "resp=another-ca"
+	}
+}
+
+func c48IndexOfResp(rs []*ref.OCSPResponder, r *ref.OCSPResponder) int {
+	for i := range rs {
+		if rs[i] == r {
+			return i
+		}
+	}
+	return 0
+}
+
+func c48DrawSigning0(rt *rapid.T, p *ref.OCSPPool, ca *ref.OCSPCA) c48Signing {
 	pickResp := func(of int, eku bool, label string) *ref.OCSPResponder {
 		rs := p.RespondersOf(of, eku)
 		return rs[rapid.IntRange(0, len(rs)-1).Draw(rt, label)]
